@@ -15,6 +15,11 @@ func init() { props["C01"] = runC01 }
 // C01: compiling and executing never panics, crashes or hangs. Every case runs in a child
 // process (stack cap, wall-clock limit); the observation is the outcome class.
 
+type c01Key struct {
+	N int
+	S string
+}
+
 type c01Unexported struct {
 	Name   string
 	secret string
@@ -44,6 +49,11 @@ func c01GoContext(i int) pongo2.Context {
 		"s1": "alpha", "s2": "be ta", "e": "", "n1": 3, "n2": -2, "z": 0, "f1": 2.5, "b1": true, "b0": false, "nil1": nil,
 		"lst": []string{"x", "y"}, "nums": []int{3, 1, 2}, "el": []int{}, "m": map[string]string{"k": "v"}, "mm": map[string]any{"a": 1, "b": "w"},
 		"st": u, "nest": [][]int{{1, 2}, {3}}, "fh": 0.5, "ft": float32(-0.25), "tiny": 1e-9,
+		// maps with every kind of key, and values to look up in them
+		"up": &u, "pm": map[*c01Unexported]bool{&u: true}, "sk": c01Key{1, "a"}, "sm": map[c01Key]int{{1, "a"}: 1}, "fm": map[float64]string{2.5: "x"},
+		"bm": map[bool]int{true: 1}, "im": map[int]string{3: "three"}, "ak": [2]int{1, 2}, "am": map[[2]int]int{{1, 2}: 3}, "ifm": map[any]any{"a": 1, 2: "b", 2.5: "c"},
+		"um": map[uint8]string{200: "x"}, "i8m": map[int8]string{-128: "y"}, "stm": map[string]any{"x&y": 1}, "nilm": map[string]int(nil),
+		"uurl": "http://пример-длинного-доменного-имени-для-проверки.рф/страница", "wurl": "www." + strings.Repeat("例", 40) + ".de x@y.de", "emo": "😀 héllo wörld 😀😀 naïve",
 	}
 	switch i % 8 {
 	case 0:
@@ -96,7 +106,10 @@ var c01Paths = []string{"st", "st.Name", "st.secret", "st.inner", "st.Hello", "s
 	"lst[n1]", "lst[\"x\"]", "nums.1", "nums[s1]", "s1.0", "s1[100]", "n1.x", "n1[0]", "nil1.x.y", "s1(1)", "s2(1,2)", "s2(1)", "n1(\"a\",\"b\")", "nil1()", "nest.0.1", "nest[1][0]"}
 
 var c01Exprs = []string{"-s1", "n1 / z", "n1 % z", "f1 / 0.0", "n1 ^ n2", "big ^ big", "n1 * n1 * n1", "-n2", "not st", "lst in lst", "st in st", "m in m", "n1 in 5", "\"a\" in n1",
-	"n1 == st", "lst == lst", "f1 < lst", "nil1 + nil1", "st + 1", "9223372036854775807 + 1", "99999999999999999999", "1.99999999999999999999", "n2 / -1", "n2 % -1"}
+	"n1 == st", "lst == lst", "f1 < lst", "nil1 + nil1", "st + 1", "9223372036854775807 + 1", "99999999999999999999", "1.99999999999999999999", "n2 / -1", "n2 % -1",
+	"up in pm", "st in pm", "nil1 in pm", "sk in sm", "st in sm", "f1 in fm", "n1 in fm", "b1 in bm", "n1 in bm", "n1 in im", "s1 in im", "f1 in im", "ak in am", "lst in am", "nums in am",
+	"up in lst", "sk in sk", "n1 in ifm", "lst in ifm", "m in ifm", "st in ifm", "nil1 in ifm", "n1 in um", "n2 in i8m", "s1 in stm", "s1 in nilm", "up in up", "pm in pm", "am in am",
+	"not (lst in ifm)", "up == up", "pm == pm", "sk == sk", "am == am", "ifm == ifm", "up in nil1", "nil1 in nil1"}
 
 func runC01(r *run) {
 	rg := newRng(r.seed)
@@ -169,6 +182,17 @@ func runC01(r *run) {
 					src := "{{ " + a + " " + op + " " + b + " }}"
 					cases = append(cases, caseT{"render", append(w.args(src, ctx0), xf, xt)})
 					cases = append(cases, caseT{"gototal", append(w.args(src, nil), xf, xt, fmt.Sprint(ai+bi))})
+				}
+			}
+		}
+		// (e) filters that take a length / count / position, on multi-byte and invalid text, for a
+		// grid of arguments around the byte and character counts
+		for _, f := range []string{"truncatechars", "truncatechars_html", "truncatewords", "truncatewords_html", "urlizetrunc", "center", "ljust", "rjust", "wordwrap", "get_digit", "floatformat", "linenumbers", "urlize", "slice"} {
+			for _, v := range []string{"uurl", "wurl", "emo", "s1", "s2"} {
+				for _, n := range []string{"0", "1", "2", "3", "4", "5", "20", "40", "60", "63", "64", "68", "90", "117", "120", "-1", "\"2:5\"", "\"-3:\""} {
+					src := "{{ " + v + "|" + f + ":" + n + " }}"
+					cases = append(cases, caseT{"gototal", append(w.args(src, nil), xf, xt, "0")})
+					cases = append(cases, caseT{"gototal", append(w.args(src, nil), xf, xt, "1")})
 				}
 			}
 		}
